@@ -431,6 +431,22 @@ class Desugarer:
             some = ret_block(B.agg(OPT, "Some", [args[1]]))
             none = ret_block(B.agg(OPT, "None", []))
             return finish([], B.switch_bool(args[0], some, none))
+        if name in ("std::ops::Fn::call", "std::ops::FnMut::call_mut", "std::ops::FnOnce::call_once") and len(args) == 2:
+            # a local closure called directly: `let f = || ..; f()` - its body runs here
+            ck = norm(f.get("resolved") or "")
+            cb = self.P.bodies.get(ck)
+            if cb is not None and cb.is_closure and ck not in stack and len(raw["blocks"]) + len(cb.blocks) < self.budget:
+                tup = args[1]
+                fields = None
+                if tup.get("k") in ("copy", "move") and not tup["place"]["p"]:
+                    d = _single_def(raw, tup["place"]["l"])
+                    if d and d[0] == "assign" and d[1]["k"] == "aggregate" and d[1].get("agg") == "tuple":
+                        fields = [x["op"] for x in d[1]["fields"]]
+                elif tup.get("k") == "const":
+                    fields = []
+                if fields is not None and cb.argc == len(fields) + 1:
+                    entry = self.inline_body(B, cb, [args[0]] + fields, D, T, stack + (ck,))
+                    return finish([], B.goto(entry))
         if name == "std::ops::Try::branch" and len(args) == 1 and self.expand_try:
             who = str(f.get("resolved") or "") + " " + str(f.get("written") or "")
             if "<std::result::Result<" in who or "<core::result::Result<" in who:
